@@ -812,8 +812,9 @@ def run(ctx: Any, prog: Program) -> None:
     tbl = Folder(prog, ins).enum_table('FixupStyle')
     members = {m.name for m in tbl}
     handled = set()
+    style_names = {'self.fixup_type'} | {t.id for a in walk_no_nested(fn) if isinstance(a, ast.Assign) and dotted(a.value) == 'self.fixup_type' for t in a.targets if isinstance(t, ast.Name)}
     for n in walk_no_nested(fn):
-        if isinstance(n, ast.Compare) and dotted(n.left) == 'self.fixup_type' and isinstance(n.ops[0], (ast.Is, ast.Eq)):
+        if isinstance(n, ast.Compare) and dotted(n.left) in style_names and isinstance(n.ops[0], (ast.Is, ast.Eq)):
             d = dotted(n.comparators[0]) or ''
             if d.startswith('FixupStyle.'):
                 handled.add(d.split('.')[-1])
@@ -843,29 +844,39 @@ def n6_substitute(ctx: Any, vm: Any) -> None:
     f-string only) and inspect its parse tree: an empty branch matches before the identifier default and eats only the `$`."""
     import re._parser as sre          # type: ignore[import-not-found]
     fn = vm.func('EntityFixup.substitute')
-    comp = [c for c in ast.walk(fn) if isinstance(c, ast.Call) and dotted(c.func) == 're.compile' and c.args and isinstance(c.args[0], ast.JoinedStr)]
+    comp = [c for c in ast.walk(fn) if isinstance(c, ast.Call) and dotted(c.func) == 're.compile' and c.args]
     if len(comp) != 1:
-        raise AnalysisError('EntityFixup.substitute: re.compile(f-string) not found')
+        raise AnalysisError('EntityFixup.substitute: re.compile(<pattern>) not found')
     js = comp[0].args[0]
     src = U(fn)
-    # what the joined list contains besides the escaped keys (an appended default pattern)
-    # the list that is joined into the pattern: the local passed to '<sep>'.join(...) inside the f-string
-    join_lists = {dotted(v.value.args[0]) for v in js.values if isinstance(v, ast.FormattedValue) and isinstance(v.value, ast.Call) and isinstance(v.value.func, ast.Attribute) and v.value.func.attr == 'join'
-                  and v.value.args and isinstance(v.value.args[0], ast.Name)}
-    sections_var = sorted(join_lists)[0] if len(join_lists) == 1 else 'sections'
-    appended = [c.args[0].value for c in ast.walk(fn) if isinstance(c, ast.Call) and isinstance(c.func, ast.Attribute) and c.func.attr == 'append' and dotted(c.func.value) == sections_var and c.args and isinstance(c.args[0], ast.Constant)]
+    defs6: Dict[str, List[ast.AST]] = {}
+    for a_ in ast.walk(fn):
+        if isinstance(a_, ast.Assign):
+            for t_ in a_.targets:
+                if isinstance(t_, ast.Name):
+                    defs6.setdefault(t_.id, []).append(a_.value)
+
+    def _appended(var: str) -> List[str]:
+        # what the joined list contains besides the escaped keys (an appended default pattern)
+        return [c.args[0].value for c in ast.walk(fn) if isinstance(c, ast.Call) and isinstance(c.func, ast.Attribute) and c.func.attr == 'append' and dotted(c.func.value) == var and c.args and isinstance(c.args[0], ast.Constant)]
+
+    def _build(e: ast.AST, keys: List[str], depth: int = 0) -> str:
+        """The pattern text for a table holding `keys`: literals, f-strings, `+`, single-assignment locals and `'<sep>'.join(<list of escaped keys>)`."""
+        if depth > 6:
+            raise AnalysisError('EntityFixup.substitute: pattern expression too deep')
+        if isinstance(e, ast.Constant) and isinstance(e.value, str):
+            return e.value
+        if isinstance(e, ast.JoinedStr):
+            return ''.join(_build(v.value if isinstance(v, ast.FormattedValue) else v, keys, depth + 1) for v in e.values)
+        if isinstance(e, ast.BinOp) and isinstance(e.op, ast.Add):
+            return _build(e.left, keys, depth + 1) + _build(e.right, keys, depth + 1)
+        if isinstance(e, ast.Name) and len(defs6.get(e.id, [])) == 1:
+            return _build(defs6[e.id][0], keys, depth + 1)
+        if isinstance(e, ast.Call) and isinstance(e.func, ast.Attribute) and e.func.attr == 'join' and isinstance(e.func.value, ast.Constant) and e.args and isinstance(e.args[0], ast.Name):
+            return e.func.value.value.join(list(keys) + _appended(e.args[0].id))
+        raise AnalysisError(f'EntityFixup.substitute: pattern piece `{U(e)}` not recognised')
     for label, keys in (('empty table', []), ('one variable', ['x']), ('prefix pair', ['ab', 'a'])):
-        parts = []
-        for v in js.values:
-            if isinstance(v, ast.Constant):
-                parts.append(str(v.value))
-            else:
-                inner = v.value                                              # type: ignore[attr-defined]
-                if isinstance(inner, ast.Call) and isinstance(inner.func, ast.Attribute) and inner.func.attr == 'join' and isinstance(inner.func.value, ast.Constant) and dotted(inner.args[0]) == sections_var:
-                    parts.append(inner.func.value.value.join(list(keys) + appended))
-                else:
-                    raise AnalysisError(f'EntityFixup.substitute: pattern piece `{U(inner)}` not recognised')
-        pattern = ''.join(parts)
+        pattern = _build(js, list(keys))
         try:
             tree = sre.parse(pattern)
         except Exception as exc:                                             # noqa: BLE001
